@@ -31,6 +31,9 @@
 #define VF_DUMMY_INIT /* value returned while an exception propagates: never read, left nondeterministic */
 #endif
 
+/* ghost character index used by spliced loop invariants (defined by every contract source) */
+extern size_t vf_gc;
+
 /* ---- exceptions: one ghost register holding the class of the exception in flight */
 extern int vf_exc;
 #define VF_EXC_none 0
